@@ -89,7 +89,7 @@ def parentsLoop : Nat → Bytes → List Bytes → List Bytes
 
 /-- files.sortedParents: parents of `dst`, outermost first. -/
 def sortedParents (dst : Bytes) : List Bytes :=
-  let b := trim slash dst
+  let b := trim slash (normFile dst)
   parentsLoop (b.length + 1) b []
 
 /-- non-empty prefixes of a list, shortest first -/
@@ -97,13 +97,12 @@ def nonEmptyPrefixes {α} : List α → List (List α)
   | [] => []
   | x :: xs => [x] :: (nonEmptyPrefixes xs).map (x :: ·)
 
-/-- component-level characterisation of sortedParents (proved equal on the
-    driver's bounded-exhaustive self-test and used by the parent-closure proof):
-    the non-empty prefixes of the lexically resolved directory part. -/
+/-- component-level form of sortedParents (compared with the transcription
+    `sortedParents` on every string of the bounded-exhaustive path family; used
+    by the model and the parent-closure proof): the non-empty proper prefixes
+    of the normalised destination's components. -/
 def sortedParentsC (dst : Bytes) : List Bytes :=
-  let comps := splitOn slash (trim slash dst)
-  let r := resolve false comps.dropLast
-  (nonEmptyPrefixes r).map (joinWith slash)
+  (nonEmptyPrefixes (resolve true (splitOn slash dst)).dropLast).map (joinWith slash)
 
 /-- common prefix strip for Rel -/
 def stripCommon : List Bytes → List Bytes → List Bytes × List Bytes
